@@ -193,7 +193,8 @@ void Search::go()
     // check if there is only one move to make
     if (_root_moves.size() == 1)
     {
-        _search_time = 500;
+        // never more than the limits allow (e.g. a clock below 500 ms)
+        _search_time = std::min<Duration>(_search_time, 500);
     }
     iter_search();
 
